@@ -204,10 +204,33 @@ IsArr(kind) == kind \in ArrKinds
 PosFormats(arg, idx) == IF "fmtpos" \in DOMAIN arg
                           THEN LET sel == SelectSeq(arg.fmtpos, LAMBDA x : x.p = idx) IN [k \in 1..Len(sel) |-> sel[k].f]
                           ELSE <<>>
+\* destinations of other integral types (kinds u64, i64, u32, u16, i16: std::uint64_t, std::int64_t, unsigned int, unsigned short,
+\* short): their values do not fit TLC's integers and are carried as canonical decimal text (no sign for positive numbers, no
+\* leading zeros, "-" for negative ones); a text converts iff it is a decimal number inside the range of the type
+WideKinds == {"u64", "i64", "u32", "u16", "i16"}
+WideMax(kind) == CASE kind = "u64" -> <<49, 56, 52, 52, 54, 55, 52, 52, 48, 55, 51, 55, 48, 57, 53, 53, 49, 54, 49, 53>>    \* 18446744073709551615
+                   [] kind = "i64" -> <<57, 50, 50, 51, 51, 55, 50, 48, 51, 54, 56, 53, 52, 55, 55, 53, 56, 48, 55>>        \* 9223372036854775807
+                   [] kind = "u32" -> <<52, 50, 57, 52, 57, 54, 55, 50, 57, 53>>                                            \* 4294967295
+                   [] kind = "u16" -> <<54, 53, 53, 51, 53>>                                                                \* 65535
+                   [] OTHER        -> <<51, 50, 55, 54, 55>>                                                                \* 32767
+WideMinMag(kind) == CASE kind = "i64" -> <<57, 50, 50, 51, 51, 55, 50, 48, 51, 54, 56, 53, 52, 55, 55, 53, 56, 48, 56>>     \* 9223372036854775808
+                      [] kind = "i16" -> <<51, 50, 55, 54, 56>>                                                             \* 32768
+                      [] OTHER        -> <<48>>
+MagLeq(z, m) == Len(z) < Len(m) \/ (Len(z) = Len(m) /\ LexLeq(z, m))
+ConvWide(kind, f) ==
+   IF ~IsNumText(f) THEN [ok |-> FALSE, v |-> 0]
+   ELSE LET z == StripZeros(Digits(f))
+            neg == f[1] = Dash /\ z # <<48>> IN
+        IF neg THEN (IF MagLeq(z, WideMinMag(kind)) THEN [ok |-> TRUE, v |-> <<Dash>> \o z] ELSE [ok |-> FALSE, v |-> 0])
+        ELSE IF MagLeq(z, WideMax(kind)) THEN [ok |-> TRUE, v |-> z] ELSE [ok |-> FALSE, v |-> 0]
+\* a negative number for an unsigned destination: boost::lexical_cast wraps it around silently, nothing documents what the
+\* handler makes of it - left open
+WideUndef(arg, f) == arg.kind \in {"u64", "u32", "u16"} /\ IsNumText(f) /\ f[1] = Dash
 ConvElemAt(arg, raw, idx) ==
    LET f == Formatted(PosFormats(arg, idx), 1, Formatted(arg.formats, 1, raw))
        isint == IF arg.kind = "tup" THEN idx # 1 ELSE ElemIsInt(arg.kind) IN
    IF ~ChecksOK(arg, raw) THEN [ok |-> FALSE, v |-> 0]
+   ELSE IF arg.kind \in WideKinds THEN ConvWide(arg.kind, f)
    ELSE IF arg.kind = "dbl" THEN (IF IsQuarterText(f) THEN [ok |-> TRUE, v |-> QuartersOf(f)] ELSE [ok |-> FALSE, v |-> 0])
    ELSE IF isint THEN (IF IsIntText(f) THEN [ok |-> TRUE, v |-> IntOf(f)] ELSE [ok |-> FALSE, v |-> 0])
    ELSE [ok |-> TRUE, v |-> f]
@@ -392,6 +415,7 @@ AssignTo0(cfg, st, a, hasv, v, count) ==
             ELSE LET r == ConvElem(arg, v) IN
                  IF ~r.ok THEN Fail(st)
                  ELSE [st EXCEPT !.dest[a] = r.v, !.has[a] = TRUE, !.cnt[a] = c1, !.filled[a] = IF inc THEN 3 ELSE 2])
+   ELSE IF WideUndef(arg, v) THEN Undef(st)
    ELSE IF ~IsContainer(arg.kind) THEN
         LET r == ConvElem(arg, v) IN
         IF ~r.ok THEN Fail(st)
